@@ -13,6 +13,8 @@
 #include "MSSMNoFV/gm2_2loop_helpers.hpp"
 #include "gm2_config_options.hpp"
 #include "gm2_mf.hpp"
+#include "gm2_ffunctions.hpp"
+#include "gm2_dilog.hpp"
 #include "gm2_slha_io.hpp"
 
 // the C interface is used from threads as well (it forwards to the same functions)
@@ -259,6 +261,43 @@ double sm_ops(double lambda, double A, double rho, double eta, double mz, double
    gm2calc::SM sm2;
    sm2.set_ckm_from_angles(0.22, 0.003 + rho * 1e-3, 0.04, 1.2 + eta);
    r += fold(sm2.get_ckm());
+   return r;
+}
+
+uint64_t mutate_mssm(MSSMNoFV_onshell& m, int what, double u)
+{
+   // a caller changing ITS OWN model (possibly a copy of a shared one) and recalculating the spectrum
+   switch (what % 8) {
+   case 0: m.set_TB(2 + 50 * u); break;
+   case 1: m.set_Mu((u < 0.2 ? -1 : 1) * (150 + 1500 * u)); break;
+   case 2: m.set_ml2(1, 1, (200 + 2000 * u) * (200 + 2000 * u)); break;
+   case 3: m.set_me2(1, 1, (200 + 2000 * u) * (200 + 2000 * u)); break;
+   case 4: m.set_MassB(100 + 1000 * u); break;
+   case 5: m.set_MassWB(150 + 1000 * u); break;
+   case 6: m.set_Ae(1, 1, -1000 + 2000 * u); break;
+   default: m.set_scale(300 + 2000 * u); break;
+   }
+   if ((what / 8) % 3 == 0) m.convert_to_onshell(1e-8, 200);
+   else m.calculate_masses();
+   return getters_mssm(m);
+}
+uint64_t mutate_thdm(THDM& m, int what, double u)
+{
+   (void)what;
+   m.set_tan_beta(0.5 + 40 * u);
+   return getters_thdm(m);
+}
+
+double ff_ops(double x, double y, double z)
+{
+   // the loop functions and special functions called directly (x, y, z > 0)
+   using namespace gm2calc;
+   double r = F1C(x) + F2C(x) + F3C(x) + F4C(x) + F1N(y) + F2N(y) + F3N(y) + F4N(y) + Fa(x, y) + Fb(x, y) + G3(z) + G4(z) + Iabc(x, y, z);
+   r += f_PS(x) + f_S(y) + f_sferm(z) + f_CSl(x) + f_CSd(x, y, z, 1 + x) + f_CSu(y, x, z, 1 + y) + F1(x) + F1t(y) + F2(z) + F3(x);
+   r += FPZ(x, y) + FSZ(y, z) + FCWl(x, z) + FCWu(x, y, z, 1 + x, 0.3, -0.6) + FCWd(z, y, x, 1 + y, 0.3, -0.6) + Phi(x, y, z) + lambda_2(x, y, z);
+   r += dilog(x - y) + clausen_2(z) + std::real(dilog(std::complex<double>(x, -y))) + std::imag(dilog(std::complex<double>(-z, y)));
+   // special-cased arguments
+   r += F1C(1.0) + F2N(1.0) + Iabc(x, x, z) + Iabc(y, y, y) + Phi(x, x, z) + FPZ(x, x) + f_PS(0.25) + f_S(0.25) + dilog(1.0) + Fa(x, x) + Fb(1.0, 1.0);
    return r;
 }
 
